@@ -932,7 +932,7 @@ func c15GenCaseB(t *rapid.T) *c15CaseB {
 			line = "!" + rapid.SampledFrom(c15BRules).Draw(t, "negated")
 		case 3:
 			line = "  " + rapid.SampledFrom(c15BRules).Draw(t, "padded") + " \t"
-		case 4:
+		case 4, 5, 6:
 			// derived from a file that exists: its base name, its path, its top directory, a glob over its extension
 			f := rapid.SampledFrom(c.Files).Draw(t, "ruleFile").Name
 			parts := strings.Split(f, "/")
